@@ -47,7 +47,9 @@ def tie(ctx, broken):
             k = f"{tr['spec'].get('noise')}/{tr['spec'].get('cons')}/{tr['spec'].get('box', 'sym')}"
             modes[k] = modes.get(k, 0) + 1
     ctx.coverage["mode_matrix"] = modes
-    R.apply_monitor(ctx, out, R.mon_c09, only_first=False)
+    invalid = [tr["spec"] for tr, _ in out if _generator_made_invalid_problem(tr)]
+    ctx.coverage["generated_invalid_problems_skipped"] = len(invalid)      # thorough panel: random x0 kind x constraint kind (start violating the constraint)
+    R.apply_monitor(ctx, [(tr, P) for tr, P in out if not _generator_made_invalid_problem(tr)], R.mon_c09, only_first=False)
     option_matrix(ctx, broken)
 
 
